@@ -733,6 +733,13 @@ def check_roundtrip(mods, scratch, case):
         if ind != blocks:
             fails.append((f'roundtrip-{fmt}-indep', f'independent {fmt.upper()} reader sees different blocks than were written'))
         if case.get('signal'):
+            # the written file is the standard-speed tape of these blocks: pilot (8063 pulses for a flag byte of 0, else
+            # 3223), two sync pulses, 855/1710 bit pulses, (PZX: 945 tail pulse), one second between blocks
+            items = []
+            for b in blocks:
+                items += [('tone', 8063 if b[0] == 0 else 3223, 2168), ('pulses', [667, 735]),
+                          ('data', b, 8, [855, 855], [1710, 1710], 945 if fmt == 'pzx' else 0), ('pause', 3500000)]
+            fails += signal_fails(mods, 'written', fmt, raw, items)
             edges, dbs = real_get_edges(mods, fmt, raw)
             fast = [d for d in dbs if d[3]]
             if [d[2] for d in fast] != blocks:
@@ -843,6 +850,48 @@ def check_pzx_sample(mods, scratch, case):
         return [('merge-signal-pzx', 'PZX data with zero-length bit pulses: before the end of the data the edge list is not '
                  'the signal obtained by toggling at every pulse end')]
     return []
+
+
+def check_pzx_levels(mods, scratch, case):
+    """PZX blocks whose stated initial levels need not agree with the running level (and PULS blocks that start
+    with zero-length pulses, of any count): the level changes before the end of the tape are those the PZX text
+    prescribes (independent reference indep/tapedec.pzx_level_changes); an odd polarity inverts the signal."""
+    from indep import tapedec
+    blocks = [tuple(b) for b in case['blocks']]
+    fe, pol = case.get('fe', 0), case.get('pol', 0)
+    edges, _ = real_get_edges(mods, 'pzx', tapedec.pzx_from_blocks(blocks), fe, pol)
+    ref, t_end = tapedec.pzx_level_changes(blocks, fe)
+    if pol % 2:
+        ref = cancel_pairs([fe] + ref)
+    fails = []
+    if not edges or edges[0] != fe or any(b < a for a, b in zip(edges, edges[1:])):
+        fails.append(('edges-decrease-pzx-levels', 'edge list does not start at first_edge or decreases'))
+    got = cancel_pairs([e for e in edges[1:] if e < t_end])
+    want = [e for e in ref if e < t_end]
+    if got != want:
+        k = next((i for i, (a, b) in enumerate(zip(got, want)) if a != b), min(len(got), len(want)))
+        fails.append(('pzx-levels', f'PZX blocks {str(blocks)[:160]} first_edge={fe} polarity={pol}: level changes {got[k:k + 4]} (index {k}), '
+                      f'the format prescribes {want[k:k + 4]}'))
+    return fails
+
+
+def check_empty_blocks(mods, scratch, case):
+    """Zero-length blocks (TAP, TZX 0x10): they parse back as empty, nothing raises, and the edges are those of the
+    tape without them."""
+    from indep import tapedec
+    tape_mod = mods['tape']
+    blocks = [list(b) for b in case['blocks']]
+    full = [b for b in blocks if b]
+    fails = []
+    back = [list(b.data) for b in tape_mod.parse_tap(bytes(tapedec.tap_bytes(blocks))).blocks]
+    if back != blocks:
+        fails.append(('roundtrip-tap-empty-block', 'a TAP file with a zero-length block parses back differently'))
+    if real_get_edges(mods, 'tap', tapedec.tap_bytes(blocks)) != real_get_edges(mods, 'tap', tapedec.tap_bytes(full)):
+        fails.append(('empty-block-changes-edges-tap', 'a zero-length TAP block changes the edges'))
+    tzx = lambda bl: list(tapedec.TZX_HEADER) + [x for b in bl for x in tapedec.tzx_standard(b, 1000)]   # noqa
+    if real_get_edges(mods, 'tzx', tzx(blocks)) != real_get_edges(mods, 'tzx', tzx(full)):
+        fails.append(('empty-block-changes-edges-tzx', 'a zero-length TZX standard-speed block changes the edges'))
+    return fails
 
 
 def tzx_offsets(data):
@@ -1005,7 +1054,7 @@ def check_any(mods, scratch, case):
 
 CHECKS = {'roundtrip': check_roundtrip, 'bin2tap': check_bin2tap, 'logical': check_logical, 'pzx': check_pzx_logical,
           'sample': check_pzx_sample, 'structure': check_structure, 'dr': check_dr, 'tapinfo': check_tapinfo,
-          'any': check_any}
+          'any': check_any, 'pzxlevels': check_pzx_levels, 'empty': check_empty_blocks}
 
 
 def run_check(mods, scratch, kind, case):
@@ -1069,6 +1118,11 @@ def e2e(chk, mods):
                    ('pulses', [5]), ('data', [0xF8, 0x08], 5, [5], [6, 7, 8], 945), ('pause', 7), ('tone', 2, 9)]):
         for fe, pol in ((0, 0), (11, 1)):
             evaluate(chk, mods, 'pzx', {'items': items, 'fe': fe, 'pol': pol}, tag='e2e-regression-135fa23', key=('regr', str(items), fe, pol))
+    directed(chk, mods)
+    for n in range(chk.scale(300, 2500)):
+        blocks = rand_pzx_blocks(rng)
+        evaluate(chk, mods, 'pzxlevels', {'blocks': blocks, 'fe': rng.choice((0, 0, 7, -3)), 'pol': rng.choice((0, 0, 1, 2, 3))},
+                 key=('pzxlevels', n), sample={'blocks': [str(b)[:60] for b in blocks[:4]]})
     for n in range(chk.scale(120, 1000)):
         items = rand_logical(rng, 'turbo')
         start, stop, skip = rand_opts(rng)
@@ -1088,6 +1142,66 @@ def e2e(chk, mods):
                  tag='e2e-any-merge' if merge else 'e2e-any', key=('any', n) if descs else None)
 
 
+def rand_pzx_blocks(rng):
+    """PZX blocks with free initial levels; never ends with a pause (the last pause of a tape is not played)."""
+    blocks = []
+    for _ in range(rng.choice((1, 2, 2, 3, 4, 5))):
+        k = rng.randrange(7)
+        if k < 3:
+            pulses = [(rng.choice((1, 1, 1, 2, 3, 4)), rng.choice((1, 5, 667, 2168, 70000))) for _ in range(rng.choice((1, 1, 2, 3)))]
+            if rng.random() < 0.5:
+                pulses.insert(0, (rng.choice((1, 1, 2, 3, 4)), 0))        # zero-length first pulse(s): odd = start high
+            if rng.random() < 0.15:
+                pulses = pulses[:1]
+            blocks.append(('PULS', pulses))
+        elif k < 6:
+            s0 = [rng.choice((1, 2, 855)) for _ in range(rng.choice((1, 2, 2, 3)))]
+            s1 = [rng.choice((3, 4, 1710)) for _ in range(rng.choice((1, 2, 2, 3)))]
+            blocks.append(('DATA', rng.randrange(2), rand_bytes(rng, rng.choice((1, 1, 2, 3))), rng.choice((8, 8, 1, 3, 7)), s0, s1,
+                           rng.choice((0, 945, 1))))
+        else:
+            blocks.append(('PAUS', rng.randrange(2), rng.choice((0, 1, 3500, 3500000))))
+    # the tape must end with a pulse of non-zero length (a last pause is not played; a final tail pulse is not an edge)
+    while blocks and (blocks[-1][0] == 'PAUS' or (blocks[-1][0] == 'PULS' and all(d == 0 for _, d in blocks[-1][1]))):
+        blocks.pop()
+    if not blocks:
+        blocks = [('PULS', [(1, 667)])]
+    return blocks
+
+
+def directed(chk, mods):
+    """Deterministic groups (every seed, every tier): the smallest tapes (one pulse of 1 or 2 T-states, one bit),
+    with first edges that put the last edge at -1, 0 and 1; level mismatches between consecutive PZX blocks;
+    zero-length blocks."""
+    tiny = [[('pulses', [1])], [('pulses', [2])], [('tone', 1, 1)], [('tone', 2, 1)], [('pulses', [1, 1])],
+            [('tone', 1, 1), ('pulses', [1, 1]), ('data', [0x80], 1, [1, 1], [2, 2], 0)],
+            [('tone', 2, 1), ('pulses', [1, 1]), ('data', [0x00], 8, [1, 1], [2, 2], 0), ('pause', 3500), ('pulses', [1])]]
+    for items in tiny:
+        for fe, pol in ((0, 0), (0, 1), (5, 0), (-2, 0), (-3, 1), (-1, 0)):
+            evaluate(chk, mods, 'logical', {'items': items, 'tape_kind': 'turbo', 'fe': fe, 'pol': pol}, tag='e2e-directed-tiny',
+                     key=('tiny-l', str(items), fe, pol))
+    tiny_pzx = tiny[:5] + [[('data', [0x80], 1, [1], [2], 0)], [('data', [0x00], 1, [1], [2, 3], 0)], [('data', [0x80], 1, [1], [2], 1)],
+                           [('pulses', [1]), ('data', [0x40], 2, [1], [2], 945), ('pause', 1), ('pulses', [1])]]
+    for items in tiny_pzx:
+        for fe, pol in ((0, 0), (0, 1), (5, 0), (-2, 0), (-3, 1), (-1, 0)):
+            evaluate(chk, mods, 'pzx', {'items': items, 'fe': fe, 'pol': pol}, tag='e2e-directed-tiny', key=('tiny-p', str(items), fe, pol))
+    data = lambda lv, tail=0: ('DATA', lv, [0xA5], 8, [1, 2], [3], tail)      # noqa
+    levels = [[('PULS', [(1, 100)]), data(0)], [('PULS', [(1, 100)]), data(1)], [('PULS', [(2, 100)]), data(0)], [('PULS', [(2, 100)]), data(1)],
+              [data(0)], [data(1)], [data(1, 945), ('PULS', [(1, 50)])], [data(0, 945), ('PULS', [(2, 50)])],
+              [('PULS', [(1, 100)]), ('PAUS', 0, 3500), ('PULS', [(1, 50)])], [('PULS', [(1, 100)]), ('PAUS', 1, 3500), ('PULS', [(1, 50)])],
+              [('PULS', [(2, 100)]), ('PAUS', 1, 3500), ('PULS', [(1, 50)])], [('PULS', [(2, 100)]), ('PAUS', 0, 3500), data(1)],
+              [('PULS', [(1, 0), (3, 500)])], [('PULS', [(2, 0), (3, 500)])], [('PULS', [(3, 0), (3, 500)])], [('PULS', [(4, 0), (2, 500)])],
+              [('PULS', [(1, 100)]), ('PULS', [(1, 0), (2, 50)])], [('PULS', [(1, 100)]), ('PULS', [(2, 0), (2, 50)])],
+              [('PULS', [(1, 100)]), ('PULS', [(1, 50)]), ('PULS', [(1, 25)])], [data(1), data(1)], [data(0), data(0)],
+              [('PAUS', 1, 1000), data(0)], [('PAUS', 1, 1000), ('PULS', [(2, 9)])], [('PAUS', 0, 1000), data(1)]]
+    for blocks in levels:
+        for fe, pol in ((0, 0), (3, 1)):
+            evaluate(chk, mods, 'pzxlevels', {'blocks': blocks, 'fe': fe, 'pol': pol}, tag='e2e-directed-pzx-levels',
+                     key=('lv', str(blocks), fe, pol))
+    for blocks in ([[255, 1, 2], [], [0, 3]], [[], [255, 9]], [[0, 1], []], [[]], [[255], [], [], [255, 0, 0]]):
+        evaluate(chk, mods, 'empty', {'blocks': blocks}, tag='e2e-directed-empty-blocks', key=('empty', str(blocks)))
+
+
 def load_mods():
     tape_mod, tapinfo, bin2tap, tap2sna = fresh_import('skoolkit.tape', 'skoolkit.tapinfo', 'skoolkit.bin2tap', 'skoolkit.tap2sna')
     return {'tape': tape_mod, 'tapinfo': tapinfo, 'bin2tap': bin2tap, 'tap2sna': tap2sna}
@@ -1101,7 +1215,11 @@ def run(chk):
                 'write_pzx or assembled from PULS (multi-word durations, repeat counts)/DATA/PAUS/BRWS/STOP/unknown blocks then '
                 'mutated; TZX files of all known block IDs (+ unknown ones) mutated likewise. e2e: logical tapes expressed as TAP, TZX (0x10, 0x11, 0x12+0x13+0x14) and PZX by independent writers, '
                 'compared with independently computed reference edges and decoded back by an independent decoder, with random '
-                'first_edge/polarity; writers + bin2tap + tapinfo; loops, info blocks, start/stop/skip; direct recording. '
+                'first_edge/polarity; writers (parse back + the exact ROM-saver signal of the written TAP/PZX file) + bin2tap + tapinfo; loops, info '
+                'blocks, start/stop/skip; direct recording; PZX blocks whose stated initial levels disagree with the running level and PULS blocks '
+                'starting with zero-length pulses of any count, against an independent reading of the PZX level rules; directed (every seed): the '
+                'smallest tapes (one pulse of 1-2 T-states, one bit) with first edges that put the last edge at -1/0/1, level mismatches between '
+                'consecutive PZX blocks, zero-length TAP/TZX blocks. '
                 'non-trivial = has data bytes / distinct by content')
     chk.trusted += ['hand models lean/SkoolVerif/Model/Edges.lean, Model/TapeFiles.lean, Model/TzxFile.lean tied by correspondence (harness/props/c11.py)',
                     'independent specs lean/SkoolVerif/Spec/EdgeDecode.lean, Spec/PzxPuls.lean, Spec/DirectRec.lean (read in minutes)',
@@ -1118,7 +1236,16 @@ def run(chk):
     chk.audit(PROPS)
     if chk.thorough and ok:
         chk.leanchecker([PROPS])
-    correspondence(chk, mods['tape'])
+    try:
+        correspondence(chk, mods['tape'])
+    except Exception as e:  # raised by skoolkit on a generated input: the tie cannot be evaluated
+        import traceback
+        tb = traceback.extract_tb(e.__traceback__)
+        where = next((f'{os.path.basename(f.filename)}:{f.name}:{f.lineno}' for f in reversed(tb) if 'skoolkit' in f.filename), None)
+        if where is None:
+            raise
+        chk.breaks.append({'kind': 'correspondence', 'name': 'Edges/TapeFiles/TzxFile models vs skoolkit.tape',
+                           'detail': f'the real code raised {type(e).__name__}: {e} (in {where}) while the correspondence inputs were evaluated'})
     e2e(chk, mods)
 
 
